@@ -86,6 +86,16 @@ class DefaultToken(Token):
         **kwargs
     ):
         Token.__init__(self, token_class, **kwargs)
+        if crypt_conf is None and kwargs.get("password"):
+            # Key material the handler factory took from the key file (jwks_def). Every
+            # instance started from that configuration must end up with the same key,
+            # so the salt can not be a random one.
+            crypt_conf = {
+                "kwargs": {
+                    "password": kwargs["password"],
+                    "salt": kwargs.get("salt") or token_class or "token",
+                }
+            }
         _res = init_encrypter(crypt_conf)
         self.crypt = _res["encrypter"]
         self.crypt_config = _res["conf"]
